@@ -237,6 +237,134 @@ theorem ReachN.bound {s0 s : Sys} {n : Nat} (h : ReachN s0 n s) : n + s.measure 
   | step _ hs ih => have := step_decreases hs; omega
 
 
+/-! ### the as-coded moves are moves of the protocol system -/
+
+theorem min3_facts (len a b : Nat) : min (min len a) b ≤ len ∧ min (min len a) b ≤ a ∧ min (min len a) b ≤ b := by
+  refine ⟨?_, ?_, ?_⟩ <;> omega
+
+theorem parentNext_step {len : Nat} {s s' : Sys} (hlen : 0 < len) (h : parentNext len s = some s') : Step s s' := by
+  obtain ⟨cap, inQ, inOpen, outQ, errQ, pPhase, toSend, gotOut, gotErr, outEof, errEof, code, cPhase, gotIn, toOut, toErr,
+    exitCode⟩ := s
+  unfold parentNext at h
+  cases pPhase with
+  | joined => simp at h
+  | writing =>
+    dsimp only at h
+    split at h
+    · rename_i hts
+      cases h
+      exact Step.pClose _ rfl (by simpa using hts)
+    · obtain ⟨k1, k2, k3⟩ := min3_facts len toSend.length (cap - inQ.length)
+      generalize min (min len toSend.length) (cap - inQ.length) = k at h k1 k2 k3
+      split at h
+      · simp at h
+      · rename_i hk
+        cases h
+        exact Step.pWrite _ k rfl (by first | omega | (dsimp only; omega)) k2 (by first | omega | (dsimp only; omega))
+  | draining =>
+    dsimp only at h
+    split at h
+    · rename_i h1
+      cases h
+      have : 0 < outQ.length := by cases outQ <;> simp_all
+      exact Step.pReadOut _ _ rfl (by first | omega | (dsimp only; omega)) (by first | omega | (dsimp only; omega))
+    · rename_i h1
+      split at h
+      · rename_i h2
+        cases h
+        have hq : outQ = [] := by
+          by_cases e : outQ = []
+          · exact e
+          · exact absurd ⟨h2.1, e⟩ h1
+        obtain ⟨h2a, h2b⟩ := h2
+        subst h2a h2b
+        exact Step.pEofOut _ rfl hq rfl rfl
+      · rename_i h2
+        split at h
+        · rename_i h3
+          cases h
+          have : 0 < errQ.length := by cases errQ <;> simp_all
+          exact Step.pReadErr _ _ rfl (by first | omega | (dsimp only; omega)) (by first | omega | (dsimp only; omega))
+        · rename_i h3
+          split at h
+          · rename_i h4
+            cases h
+            have hq : errQ = [] := by
+              by_cases e : errQ = []
+              · exact e
+              · exact absurd ⟨h4.1, e⟩ h3
+            obtain ⟨h4a, h4b⟩ := h4
+            subst h4a h4b
+            exact Step.pEofErr _ rfl hq rfl rfl
+          · split at h
+            · rename_i h5
+              cases h
+              obtain ⟨h5a, h5b, h5c⟩ := h5
+              subst h5a h5b h5c
+              exact Step.pJoin _ rfl rfl rfl rfl
+            · simp at h
+
+theorem childNext_step {len : Nat} {s s' : Sys} (hlen : 0 < len) (h : childNext len s = some s') : Step s s' := by
+  obtain ⟨cap, inQ, inOpen, outQ, errQ, pPhase, toSend, gotOut, gotErr, outEof, errEof, code, cPhase, gotIn, toOut, toErr,
+    exitCode⟩ := s
+  unfold childNext at h
+  cases cPhase with
+  | exited => simp at h
+  | reading =>
+    dsimp only at h
+    split at h
+    · rename_i hq
+      cases h
+      have : 0 < inQ.length := by cases inQ <;> simp_all
+      exact Step.cRead _ _ rfl (by first | omega | (dsimp only; omega)) (by first | omega | (dsimp only; omega))
+    · rename_i hq
+      split at h
+      · rename_i ho
+        cases h
+        subst ho
+        exact Step.cEofIn _ rfl (by simpa using hq) rfl
+      · simp at h
+  | writingOut =>
+    dsimp only at h
+    split at h
+    · rename_i hts
+      cases h
+      exact Step.cDoneOut _ rfl (by simpa using hts)
+    · obtain ⟨k1, k2, k3⟩ := min3_facts len toOut.length (cap - outQ.length)
+      generalize min (min len toOut.length) (cap - outQ.length) = k at h k1 k2 k3
+      split at h
+      · simp at h
+      · cases h
+        exact Step.cWriteOut _ k rfl (by first | omega | (dsimp only; omega)) k2 (by first | omega | (dsimp only; omega))
+  | writingErr =>
+    dsimp only at h
+    split at h
+    · rename_i hts
+      cases h
+      exact Step.cExit _ rfl (by simpa using hts)
+    · obtain ⟨k1, k2, k3⟩ := min3_facts len toErr.length (cap - errQ.length)
+      generalize min (min len toErr.length) (cap - errQ.length) = k at h k1 k2 k3
+      split at h
+      · simp at h
+      · cases h
+        exact Step.cWriteErr _ k rfl (by first | omega | (dsimp only; omega)) k2 (by first | omega | (dsimp only; omega))
+
+theorem runCoded_reach {len : Nat} (hlen : 0 < len) (sched : List Bool) : ∀ {s0 s : Sys}, Reach s0 s →
+    Reach s0 (runCoded len sched s) := by
+  induction sched with
+  | nil => intro s0 s h; exact h
+  | cons b r ih =>
+    intro s0 s h
+    unfold runCoded
+    cases hn : (if b = true then parentNext len s else childNext len s) with
+    | none => exact ih h
+    | some s' =>
+      apply ih
+      refine .step h ?_
+      cases b
+      · exact childNext_step hlen (by simpa using hn)
+      · exact parentNext_step hlen (by simpa using hn)
+
 /-! ### join first -/
 
 structure InvJ (cap : Nat) (inp out err : Bool) (I O E : List Nat) (c : Nat) (s : SysJ) : Prop where
